@@ -7,16 +7,15 @@ From PlzV Require Import Base.Harness.
 
 Definition label := N.
 
-(* What the anchored code reads of a core.BuildTarget.  [t_toolfiles] is NOT read by the code
-   (HasSource looks at AllSources() and AllData() only); it is carried so that the property can
-   talk about every file a target consumes. *)
+(* What the anchored code reads of a core.BuildTarget.  (Tools are never in-repository files: the BUILD
+   parser turns a relative non-label tool into a lookup on PATH, so AllSources() ++ AllData() are all the
+   repository files a target consumes.) *)
 Record target := mkT {
   t_id : label;                        (* Label *)
   t_pkg : str;                         (* Label.PackageName *)
   t_sub : bool;                        (* Subrepo != nil (the label lives in a subrepo) *)
   t_subtarget : option label;          (* Subrepo.Target.Label when the subrepo has a target *)
   t_inputs : list str;                 (* String() of AllSources() ++ AllData(), in that order *)
-  t_toolfiles : list str;              (* file-valued tools / test tools (package relative) *)
   t_deps : list label;                 (* DeclaredDependencies() *)
   t_requires : list N;                 (* Requires *)
   t_provides : list (N * list label);  (* Provides *)
